@@ -48,9 +48,11 @@ typedef uint8_t ub1;
   b -= c; b -= a; b ^= (a<<10); \
   c -= a; c -= b; c ^= (b>>15); \
 }
+/* the transcription is the oracle, not the subject: no per-byte shadow checks (it runs over keys of up to 16 GiB) */
+#define REF_FN __attribute__((no_sanitize_address, optimize("O2")))
 #define REF_GOLDEN 0xf721b64dU   /* lookup2.c: 0x9e3779b9, "an arbitrary value"; libast's choice */
 
-static ub4 ref_hash(const ub1 *k, ub4 length, ub4 initval)
+REF_FN static ub4 ref_hash(const ub1 *k, ub4 length, ub4 initval)
 {
     ub4 a, b, c, len;
     len = length;
@@ -81,12 +83,12 @@ static ub4 ref_hash(const ub1 *k, ub4 length, ub4 initval)
     return c;
 }
 /* hash2(): the key as words; the words are composed from bytes so that no alignment is needed */
-static ub4 ref_word(const ub1 *k, ub4 i)
+REF_FN static ub4 ref_word(const ub1 *k, ub4 i)
 {
     const ub1 *p = k + (size_t) 4 * i;      /* not 4 * i in 32 bits: word arrays of 2^30 words and more */
     return p[0] + ((ub4) p[1] << 8) + ((ub4) p[2] << 16) + ((ub4) p[3] << 24);
 }
-static ub4 ref_hash2(const ub1 *k, ub4 length, ub4 initval)
+REF_FN static ub4 ref_hash2(const ub1 *k, ub4 length, ub4 initval)
 {
     ub4 a, b, c, len, o = 0;
     len = length;
@@ -107,20 +109,20 @@ static ub4 ref_hash2(const ub1 *k, ub4 length, ub4 initval)
     ref_mix(a, b, c);
     return c;
 }
-static ub4 ref_rotating(const ub1 *k, ub4 len, ub4 seed)
+REF_FN static ub4 ref_rotating(const ub1 *k, ub4 len, ub4 seed)
 {
     ub4 h = seed ? seed : REF_GOLDEN, i;
     for (i = 0; i < len; i++) h = ((h << 4) | (h >> 28)) ^ k[i];   /* rotate left by 4 */
     return h ^ (h >> 10) ^ (h >> 20);
 }
-static ub4 ref_oaat(const ub1 *k, ub4 len, ub4 seed)
+REF_FN static ub4 ref_oaat(const ub1 *k, ub4 len, ub4 seed)
 {
     ub4 h = seed ? seed : REF_GOLDEN, i;
     for (i = 0; i < len; i++) { h += k[i]; h *= 1025U; h ^= (h >> 6); }
     h *= 9U; h ^= (h >> 11); h *= 32769U;
     return h;
 }
-static ub4 ref_fnv1a(const ub1 *k, ub4 len, ub4 seed)
+REF_FN static ub4 ref_fnv1a(const ub1 *k, ub4 len, ub4 seed)
 {
     ub4 h = seed ? seed : 2166136261U, i;
     for (i = 0; i < len; i++) { h ^= k[i]; h *= 16777619U; }
